@@ -31,6 +31,7 @@ pub struct SimStats {
     pub accesses: u64,
     pub yields: u64,
     pub tasks: u64,
+    pub nested_tasks: u64,
     pub leaves: u64,
     pub tree_depth: u64,
     pub steals_from_back: u64,
@@ -62,6 +63,10 @@ impl Hasher for IdHasher {
 const MULTI_READ: i64 = -2;
 
 pub struct SimState {
+    /// true only while a simulated execution (a shuttle Runner body) is running on this OS thread;
+    /// outside of it the crate behaves as a plain sequential iterator library and touches no
+    /// shuttle API (the packing library is linked against this crate in every harness binary)
+    pub in_simulation: bool,
     pub cfg: SimConfig,
     pub stats: SimStats,
     /// value id -> (owning item task or MULTI_READ, written by an item task)
@@ -72,6 +77,7 @@ pub struct SimState {
 
 std::thread_local! {
     static STATE: RefCell<SimState> = RefCell::new(SimState {
+        in_simulation: false,
         cfg: SimConfig::default(),
         stats: SimStats::default(),
         owners: HashMap::default(),
@@ -100,6 +106,25 @@ pub fn configure(cfg: SimConfig, monitor_on: bool) {
     });
 }
 
+/// bracket a simulated execution (called by the harness at the start / end of a Runner body)
+pub fn enter_simulation() {
+    with(|s| s.in_simulation = true);
+}
+pub fn leave_simulation() {
+    with(|s| s.in_simulation = false);
+}
+pub fn in_simulation() -> bool {
+    with(|s| s.in_simulation)
+}
+
+pub(crate) fn current_item() -> i64 {
+    if in_simulation() {
+        CURRENT_ITEM.with(|c| c.get())
+    } else {
+        -1
+    }
+}
+
 pub fn take_stats() -> SimStats {
     with(|s| std::mem::take(&mut s.stats))
 }
@@ -120,7 +145,7 @@ pub fn on_access(id: u64, write: bool) {
     let mut do_yield = false;
     let in_sim = STATE.with(|s| {
         let mut s = s.borrow_mut();
-        if !s.monitor_on {
+        if !s.monitor_on || !s.in_simulation {
             return false;
         }
         s.stats.accesses += 1;
